@@ -38,8 +38,12 @@ MANIFEST = dict(
     text="Lean 4 theorems (Chewing/Props/C12.lean) over executable models of the legacy uhash.dat readers (binary 125-byte records, "
          "text lines; every index/slice a checked accessor) and of the repository's own trie traversal code (lookup thread sets, "
          "entries() explicit-stack walk, every bail_if_oob! guard) over arbitrary index tables with the der decoders as parameters: "
-         "no panic for all byte strings / all tables, termination and step bounds under exactly the negation of the known finding "
-         "classes, refutations with concrete witnesses for the known findings F16/F17. Tie: the model must predict the real outcome "
+         "legacy readers and UserDictionaryLoader::load return (no panic, no fuel exhaustion) for ALL byte strings with at most one "
+         "record per byte; lookup returns for ALL index tables with at most n^|q| threads; entries() never panics under NoZeroChild "
+         "(= not F17) and finishes within 8*2^n+2 loop iterations under Forward (= children after their parent, not F16) by a "
+         "strictly decreasing measure (entries_measure_decreases); refutations with concrete witnesses for F16 (endless loop for every "
+         "fuel; thread blow-up) and F17 (both panic sites). NOT proved: a linear thread / step bound under Forward+DisjointRanges "
+         "(LookupThreadsLinear is stated and refuted in general only). Tie: the model must predict the real outcome "
          "(result, panic or hang) of every call on systematically corrupted files; an independent oracle reports any panic, abort, "
          "watchdog timeout or result larger than the file.",
     note="F14/F15/F39(legacy)/F26 were repaired by fix: commits and are proved absent in the model of the repaired code (witnesses "
